@@ -1,13 +1,16 @@
 """C12 -- sphere volume / surface / radius conversions are mutually consistent."""
-from contracts import spherical as sp
+from contracts import droplets as dr, lemmas, spherical as sp
 from pyvc.bounded import ContractSampling
 
 LEVEL = "proof"
+LEVEL_TEXT = 'Every conversion variant (scalar/array, dimension-specialised, dimension-generic, numba overload) and every droplet accessor is verified against the spec functions V_d, S_d and the relational R_d for all real arguments >= 0 (no bound), dims 1-3, with the documented exceptions elsewhere; round trips, injectivity and S = dV/dr are z3 lemmas over those contracts. Float behaviour and the compiled code are only sampled (bounded stand-in).'
+LEVEL_NOTE = 'floats = mathematical reals (A-FP); numba compiles the Python text faithfully (A-NB, sampled); numpy scalar functions sqrt / ** / broadcast_to / full as modelled in pyvc/models.py; Cuboid.from_points = box with the given corners; pyvc engine semantics'
 CONTRACTS = [c.ident for c in (
     sp.RadiusFromVolume(), sp.SurfaceFromRadius(), sp.RadiusFromSurface(), sp.PdeVolumeFromRadius(),
     sp.RadiusFromVolumeNd(), sp.VolumeFromRadiusNd(), sp.MakeRadiusFromVolume(), sp.MakeVolumeFromRadius(),
-    sp.MakeSurfaceFromRadius(), sp.NdFactoryRadius(), sp.NdFactoryVolume())]
-LEMMAS = []
+    sp.MakeSurfaceFromRadius(), sp.NdFactoryRadius(), sp.NdFactoryVolume(), sp.SurfaceOverloadDim1(),
+    dr.Volume(), dr.SurfaceArea(), dr.Curvature(), dr.BBox(), dr.VolumeSetter(), dr.SetThenGetVolume(), dr.FromVolume())]
+LEMMAS = ["V_d-and-S_d-injective-on-nonnegative-radii", "conversion-round-trips", "surface-is-derivative-of-volume"]
 BOUNDED = [ContractSampling("conversions-sampled", CONTRACTS,
-                            "each variant on 18 (quick) / 206 (thorough) radii/volumes spanning 1e-15..1e15, scalar and array, "
+                            "each variant on 18 (quick) / 206 (thorough) radii/volumes spanning 1e-15..1e15, scalar and (2,3)-array, droplet accessors on 6/80 droplets per class and dimension, "
                             "native floats and jitted code, relative tolerance 1e-9")]
